@@ -393,3 +393,6 @@ V('PK_string_route_own_builder', ['C05'], 'bitstore_helpers.py', "    for token 
 V('PK_readlist_own_split', ['C05'], 'bits.py', "                token_list = utils.preprocess_tokens(f_item)\n                for t in token_list:", "                token_list = [t.strip() for t in f_item.split(',')]\n                for t in token_list:", ['PK'])
 V('H4_struct_fastpath_sign_typo', ['C02', 'C18'], 'bits.py', "    def _getintle(self) -> int:\n        \"\"\"Interpret as a little-endian signed int.\"\"\"", "    def _getintle(self) -> int:\n        \"\"\"Interpret as a little-endian signed int.\"\"\"\n        if len(self) == 32:\n            return struct.unpack('<I', self._bitstore.tobytes())[0]", ['H4'])
 S('PK_S_rename_value_iter', ['C05'], 'methods.py', fn=rename_local('value_iter', 'remaining_values'))
+V('N5_literal_funcs_unguarded', ['C20'], 'bitstore_helpers.py', "    if name in literal_bit_funcs:\n        return literal_bit_funcs[name](value)", "    if name.startswith('0'):\n        return literal_bit_funcs[name](value)", ['N5'])
+V('N5_register_no_handler', ['C20'], 'dtypes.py', "        try:\n            definition = cls.names[name]\n        except KeyError:\n            raise ValueError(f\"Unknown Dtype name '{name}'. Names available: {list(cls.names.keys())}.\")\n        else:\n            return definition.get_dtype(length, scale)", "        definition = cls.names[name]\n        return definition.get_dtype(length, scale)", ['N5'])
+V('N5_new_table_lookup', ['C20'], 'bits.py', "                bits_per_group = {'bin': 8, 'hex': 8, 'oct': 12, 'bytes': 32}.get(dtype1.name)", "                bits_per_group = {'bin': 8, 'hex': 8, 'oct': 12, 'bytes': 32}[dtype1.name]", ['N5'])
